@@ -126,6 +126,10 @@ void Model::add(const std::string &name, Model &model) {
 
 const Model &Model::get_semiterminal(
     const std::vector<std::string> &names) const {
+  if (names.empty()) {
+    // `names.end() - 1` below is undefined for an empty list.
+    PRIMITIV_THROW_ERROR("Parameter or submodel not found: empty name list.");
+  }
   const Model *cur = this;
   for (auto it = names.begin(), end = names.end() - 1; it != end; ++it) {
     const auto next = cur->submodel_kv_.find(*it);
